@@ -19,13 +19,16 @@ def main():
     if "--features" in a: feats = a[a.index("--features") + 1]
     if "--tier" in a: tier = a[a.index("--tier") + 1]
     extra = a[a.index("--cargo-args") + 1].split() if "--cargo-args" in a else []
+    rustflags = a[a.index("--rustflags") + 1] if "--rustflags" in a else None
+    demo_dir = a[a.index("--demo-dir") + 1] if "--demo-dir" in a else "fast-tlsh/tests"
+    demo_pkg = a[a.index("--demo-pkg") + 1] if "--demo-pkg" in a else "fast-tlsh"
     wt = "/tmp/ev/" + sid
     os.makedirs("/tmp/ev", exist_ok=True)
     subprocess.run(["git", "-C", "/repo", "worktree", "remove", "--force", wt], capture_output=True)
     rc, out = sh(["git", "-C", "/repo", "worktree", "add", "-q", wt, "HEAD"], "/")
     if rc: print(out); return 2
     env = dict(os.environ, CARGO_TARGET_DIR="/tmp/ev/target", CARGO_NET_OFFLINE="true")
-    meta = {"id": sid, "source": src, "features": feats, "cargo_args": extra}
+    meta = {"id": sid, "source": src, "features": feats, "cargo_args": extra, "rustflags": rustflags}
     try:
         patch = os.path.join(src, "patch.diff")
         rc, out = sh(["git", "apply", "--check", patch], wt)
@@ -39,18 +42,22 @@ def main():
         meta["suite_passes_with_patch"] = lib_ok
         print("suite with patch:", res[:4], "OK" if lib_ok else "NOT OK")
         # demo
-        os.makedirs(os.path.join(wt, "fast-tlsh", "tests"), exist_ok=True)
+        os.makedirs(os.path.join(wt, demo_dir), exist_ok=True)
         demos = []
         for f in glob.glob(os.path.join(src, "demo", "*.rs")):
-            shutil.copy(f, os.path.join(wt, "fast-tlsh", "tests"))
+            shutil.copy(f, os.path.join(wt, demo_dir))
             demos.append(os.path.splitext(os.path.basename(f))[0])
         def run_demo():
             outs = []
             ok = True
             for d in demos:
-                cmd = ["cargo", "test", "-p", "fast-tlsh", "--offline", "--test", d] + (["--features", feats] if feats else []) + extra
-                rc, out = sh(cmd, wt, env)
+                cmd = ["cargo", "test", "-p", demo_pkg, "--offline", "--test", d] + (["--features", feats] if feats else []) + extra
+                rc, out = sh(cmd, wt, dict(env, RUSTFLAGS=rustflags) if rustflags else env)
                 outs.append((d, rc, re.findall(r"test result: .*", out)[:2]))
+                ok = ok and rc == 0
+            for f in glob.glob(os.path.join(src, "demo", "*.sh")):
+                rc, out = sh(["sh", f], wt, env)
+                outs.append((os.path.basename(f), rc, out[-300:]))
                 ok = ok and rc == 0
             return ok, outs
         ok_with, outs_with = run_demo()
@@ -58,11 +65,11 @@ def main():
         sh(["git", "apply", "-R", patch], wt)
         ok_without, outs_without = run_demo()
         meta["demo_without_patch"] = outs_without
-        meta["demo_discriminates"] = (not ok_with) and ok_without and bool(demos)
+        meta["demo_discriminates"] = (not ok_with) and ok_without and bool(outs_with)
         print("demo with patch:", "fails" if not ok_with else "PASSES", "| without:", "passes" if ok_without else "FAILS")
         # checks on the patched tree
         sh(["git", "apply", patch], wt)
-        for f in glob.glob(os.path.join(wt, "fast-tlsh", "tests", "*.rs")): os.remove(f)
+        for d in demos: os.remove(os.path.join(wt, demo_dir, d + ".rs"))
         props = ["C%02d" % i for i in range(1, 19)]
         fired = {}
         evd = "/tmp/ev/evidence-" + sid
